@@ -557,6 +557,22 @@ func (t *WType) jsonSchema(refPrefix string) map[string]any {
 // object references every other definition (so that all of them are parsed).
 func (p *WPackage) RenderJSONSchema() string { return p.renderJSONSchemaRoot("Root") }
 
+// RenderJSONSchemaEntry renders the package without the synthetic Root object: the
+// document's root is a reference to the given object (which has to reach the others).
+func (p *WPackage) RenderJSONSchemaEntry(entry string) string {
+	defs := map[string]any{}
+	for _, o := range p.Objects {
+		defs[o.Name] = o.T.jsonSchema("#/definitions/")
+	}
+	doc := map[string]any{
+		"$schema":     "http://json-schema.org/draft-07/schema#",
+		"$ref":        "#/definitions/" + entry,
+		"definitions": defs,
+	}
+	b, _ := json.MarshalIndent(doc, "", " ")
+	return string(b)
+}
+
 func (p *WPackage) renderJSONSchemaRoot(rootName string) string {
 	defs := map[string]any{}
 	rootProps := map[string]any{}
